@@ -216,4 +216,16 @@ ExecStep(n) ==
   /\ outh' = [outh EXCEPT ![n] = Append(@, ExecH(n))]
   /\ UNCHANGED <<cfg, ph, kt, endPrev, ps, q, prevRecv, nsel, hist>>
 
+(* ---- SkipStep ----------------------------------------------------------- *)
+(* A supervisor tick that is pending when the user stops the graph: rex records the tick (with the inputs it    *)
+(* would have seen) but nobody executes it - no output, no new state, and the pushed inputs are dropped.         *)
+(* rex: _Synchronizer._async_step returning (None, _SkippedSteps); push_step keeps the old _step_state.          *)
+SkipStep(n) ==
+  /\ ExecEnabled(n)
+  /\ ke' = [ke EXCEPT ![n] = @ + 1]
+  /\ pend' = [pend EXCEPT ![n] = Tail(@)]
+  /\ grp' = [x \in Conns |-> IF x \in Ins(n) THEN Tail(grp[x]) ELSE grp[x]]
+  /\ outh' = [outh EXCEPT ![n] = Append(@, -1)]
+  /\ UNCHANGED <<cfg, ph, kt, endPrev, ps, q, prevRecv, nsel, hist, win, hcur>>
+
 =============================================================================
